@@ -660,7 +660,9 @@ func runC14Lock(rc *RunCtx) *simkit.Violation {
 		for i := 0; i < k; i++ {
 			c := w.Client(fmt.Sprintf("locker-%s-%d", round, i))
 			f := i == force
-			tasks = append(tasks, w.Go(c, "purge-lock", func() (interface{}, error) { return nil, core.PurgeLock(d.Stores(c), core.WithPurgeLogger(nopLog), core.WithPurgeForce(f)) }))
+			tasks = append(tasks, w.Go(c, "purge-lock", func() (interface{}, error) {
+				return nil, core.PurgeLock(d.Stores(c), core.WithPurgeLogger(nopLog), core.WithPurgeForce(f))
+			}))
 		}
 		if v := w.Run(); v != nil {
 			v.Property = prop
